@@ -27,6 +27,7 @@ EXPLANATION = (
     'value of a template-parameter type - and no library call that may throw between reserve() and spawn / execute_and_wait / '
     'the end of the function).  "One that was actually thrown", the '
     'timing of bodies versus the rethrow and user-object lifetime counts are NOT decided.')
+EXPLANATION += ' Added after the seeded-change rounds: ' + 'D8: nothing that may throw stands between re-parenting a splitting task to its new join node and the spawn of the sibling; D9: a wait reference is reserved only when no user operation (template-parameter typed operation) / throw / allocation stands between reserve() and the hand-over of the child (preview message-waiter protocol excluded).'
 ASSUMPTIONS = ['the try_call/raii_guard idiom behaves as its definition in _template_helpers.h (checked structurally in D5)',
                'task classes not instantiated by the drivers are not analysed']
 ND = ['"one that was actually thrown" under all throw positions', 'timing of bodies vs. the rethrow',
